@@ -1066,3 +1066,80 @@ pub fn with_resubmitted<T>(c: &Case, new_body: &[u8], f: impl FnOnce(Request<Byt
     let again = Request::from_parts(parts, Bytes::from(new_body.to_vec()));
     Some((headers, uri, f(again)))
 }
+
+// ---------------------------------------------------------------------------------------------
+// One `service_for_signing_key_fn` adapter object used for a whole history of validations
+
+/// Validate the cases in order through ONE adapter built by `service_for_signing_key_fn` around a function that
+/// answers the i-th lookup with the i-th case's scripted answer (key + identity, or error). Returns for every case
+/// `OK principal=<Debug>` / `ERR kind` / `PANIC`, and the number of times the wrapped function was called.
+pub fn validate_history_through_adapter(cases: &[Case], use_clone: bool) -> Option<(Vec<String>, usize)> {
+    use scratchstack_aws_signature::service_for_signing_key_fn;
+    let answers: Arc<Vec<Answer>> = Arc::new(cases.iter().map(|c| c.answer.clone()).collect());
+    let cursor = Arc::new(std::sync::atomic::AtomicUsize::new(0));
+    let calls = Arc::new(std::sync::atomic::AtomicUsize::new(0));
+    let (a2, c2, n2) = (answers.clone(), cursor.clone(), calls.clone());
+    let f = move |_r: GetSigningKeyRequest| {
+        let idx = c2.load(std::sync::atomic::Ordering::SeqCst);
+        n2.fetch_add(1, std::sync::atomic::Ordering::SeqCst);
+        let a = a2[idx.min(a2.len() - 1)].clone();
+        async move {
+            match a {
+                Answer::Err(pe) => Err(to_box(&pe)),
+                Answer::Key { key, identity } => {
+                    let mut k = [0u8; 32];
+                    let n = key.len().min(32);
+                    k[..n].copy_from_slice(&key[..n]);
+                    GetSigningKeyResponse::builder().principal(principal_for(&identity)).session_data(session_for(&identity)).signing_key(raw_signing_key(&k)).build().map_err(|e| -> BoxError { Box::new(e) })
+                }
+            }
+        }
+    };
+    let svc = service_for_signing_key_fn(f);
+    let mut out = Vec::new();
+    for (i, c) in cases.iter().enumerate() {
+        cursor.store(i, std::sync::atomic::Ordering::SeqCst);
+        let req = build_request(c)?;
+        let now = mk_time(c.now.0, c.now.1)?;
+        let opts = SignatureOptions { s3: c.s3, url_encode_form: c.fold };
+        let a: Vec<Cow<str>> = c.always.iter().map(|s| Cow::Borrowed(s.as_str())).collect();
+        let b: Vec<Cow<str>> = c.ifreq.iter().map(|s| Cow::Borrowed(s.as_str())).collect();
+        let p: Vec<Cow<str>> = c.prefixes.iter().map(|s| Cow::Borrowed(s.as_str())).collect();
+        let reqs = SliceSignedHeaderRequirements::new(&a, &b, &p);
+        flip_log_level();
+        let mut s = if use_clone && i % 2 == 1 { svc.clone() } else { svc.clone() };
+        let r = catch_unwind(AssertUnwindSafe(|| block_on(sigv4_validate_request(req, &c.region, &c.service, &mut s, now, &reqs, opts)).0));
+        out.push(match r {
+            Err(_) => "PANIC".to_string(),
+            Ok(Ok((_p, _b, resp))) => format!("OK principal={:?} session={:?}", resp.principal(), resp.session_data()),
+            Ok(Err(e)) => match e.downcast::<SignatureError>() {
+                Ok(se) => format!("ERR {}", kind_of(&se)),
+                Err(_) => "ERR NotASignatureError".to_string(),
+            },
+        });
+    }
+    Some((out, calls.load(std::sync::atomic::Ordering::SeqCst)))
+}
+
+/// `canonical_request(signed)` evaluated for each list in turn on ONE `CanonicalRequest` object (unstable API), and
+/// on a fresh object per list: returns (on one object, on fresh objects), hex-encoded.
+pub fn canonical_request_history(c: &Case, lists: &[Vec<String>]) -> Option<(Vec<String>, Vec<String>)> {
+    let opts = SignatureOptions { s3: c.s3, url_encode_form: c.fold };
+    let mk = || -> Option<CanonicalRequest> {
+        let req = build_request(c)?;
+        let (parts, body) = req.into_parts();
+        CanonicalRequest::from_request_parts(parts, body, opts).ok().map(|x| x.0)
+    };
+    let one = mk()?;
+    let mut a = Vec::new();
+    let mut b = Vec::new();
+    for (i, l) in lists.iter().enumerate() {
+        flip_log_level();
+        let obj = if i % 2 == 1 { one.clone() } else { one.clone() };
+        let target: &CanonicalRequest = if i % 3 == 2 { &obj } else { &one };
+        a.push(guard(|| Ok(hx(&target.canonical_request(l)))));
+        let fresh = mk()?;
+        b.push(guard(|| Ok(hx(&fresh.canonical_request(l)))));
+    }
+    Some((a, b))
+}
